@@ -120,6 +120,15 @@ func PropC14(c *vs.Case, f Factory, kind string) error {
 			scn.Cfg.ParentAnnSel = map[string]string{"decorate": "please"}
 		}
 	}
+	if kind == "decorator" && c.Prob(1, 4) {
+		// Two resource rules with the same plural (and kind) in different API groups; the first one, which is not
+		// the parents' own, says the opposite about status changes. Each rule's flag is for its own resource only.
+		scn.Cfg.TwinParent = "ignores"
+		if scn.Cfg.IgnoreStatus {
+			scn.Cfg.TwinParent = "heeds"
+		}
+		c.Class("twin-parent-resource/" + scn.Cfg.TwinParent)
+	}
 	scn.Cfg.CustomizeHook = c.Prob(1, 2)
 	relMode := c.Int(3)
 	if scn.Cfg.CustomizeHook {
